@@ -180,7 +180,13 @@ Definition falses (params : list (option bool)) (bsh : shape) : shape :=
    [extents of the non-kept axes before the first kept axis] x [nnz] x [extents of the other non-kept
    axes], first factor slowest.  Without any kept axis the code returns every index of broadcast_shape
    once and np.repeat(data, size) (consistent only for nnz <= 1; for nnz = 0 a 0-row matrix). *)
-Definition expand_coords_data {D} (coords : list idx) (data : list D) (params : list (option bool))
+(* the expanded coordinates are written into an intp matrix and the expansion indices are intp aranges
+   (Gen/S_umath.v: s_expanded_coords_dtype, s_expand_arange_dtype): they are exact integers whatever
+   (narrow) index dtype the operand's own coordinates have.  Were that not so, this model — exact in Z —
+   would not describe the code, and the definition below says so by returning nothing. *)
+Definition expand_index_exact : bool := (s_expanded_coords_dtype =? 0) && (s_expand_arange_dtype =? 0).
+
+Definition expand_coords_data_Z {D} (coords : list idx) (data : list D) (params : list (option bool))
            (bsh : shape) : list idx * list D :=
   match first_true params with
   | None =>
@@ -200,6 +206,10 @@ Definition expand_coords_data {D} (coords : list idx) (data : list D) (params : 
                 (all_indices pre) in
     (map fst es, map snd es)
   end.
+
+Definition expand_coords_data {D} (coords : list idx) (data : list D) (params : list (option bool))
+           (bsh : shape) : list idx * list D :=
+  if expand_index_exact then expand_coords_data_Z coords data params bsh else ([], []).
 
 (* ------------------------------------------------------------------ _get_matching_coords (two operands) *)
 
